@@ -203,6 +203,9 @@ func (w *World) pending(s *Snap) []string {
 		}
 		// O3: released runs return and their stage leaves 'running'
 		for _, rec := range r.Runs {
+			if !rec.Notified && !rec.Returned {
+				p = append(p, fmt.Sprintf("job %s task %s entered Run, start not yet reported", shortID(r.JobID), rec.Task))
+			}
 			if rec.Released && !rec.Returned {
 				p = append(p, fmt.Sprintf("job %s task %s released, Run not returned", shortID(r.JobID), rec.Task))
 			}
@@ -242,6 +245,11 @@ func (w *World) pending(s *Snap) []string {
 	}
 	for _, r := range w.unknownRunners {
 		check(r)
+	}
+	// O8: the first change wakes the persist loop; its save is captured by the harness store before
+	// the history goes on (afterwards no automatic save can happen in this case)
+	if w.Mem != nil && len(s.Jobs) > 0 && !w.Mem.Captured() {
+		p = append(p, "first automatic save not yet captured")
 	}
 	return p
 }
@@ -298,7 +306,9 @@ func (w *World) waitIters(marks []iterMark, n int64, limit time.Duration) bool {
 			if r.LoopExited || (r.hold && r.parked) {
 				continue
 			}
-			if r.iter < m.iter+n {
+			// unreported status changes (dependents of a failed stage are marked canceled without a
+			// notification) travel one level of the graph per iteration
+			if r.iter < m.iter+n+int64(r.NTasks) {
 				ok = false
 				break
 			}
